@@ -33,7 +33,8 @@ MANIFEST = {
                           "validated by TLC against the abstract history spec (HubsHist.tla / HubsTrace.tla)",
                 text="TLC exhaustively checks CloseEnds, CloseReturns, CloseIdempotent, ErrAfterClose and NoLateCallback on Hubs.tla (tell hub, ask hub, "
                      "bounded queue; 2 deliver x 2 receive ops, close, cancels, every interleaving). The close matrix (b in {0,1,4} calls blocked in "
-                     "Receive/ServeAsk with non-expiring contexts; Close before rendezvous / in the callback / after / after cancels; repeated Close; calls "
+                     "Receive/ServeAsk with non-expiring contexts; k in {0,1,W,2W} deliveries in flight with W = the stack's worker count (GOMAXPROCS forced to 2, "
+                     "and the default in the thorough tier); Close before rendezvous / in the callback / after / after cancels; repeated Close; calls "
                      "and a Tell after Close returned; goroutine-release check) is run on memswarm, fragswarm, mbapp, p2pmux, multiswarm, p2pkeswarm, "
                      "quicswarm, sshswarm, udpswarm from TLC-generated scripts, plus seeded close races on the exported hubs; every recorded history is "
                      "decided by TLC against the history specification. A VIOLATION is printed only for an operator falsified by a real event.",
@@ -65,9 +66,15 @@ STACKS = ["memswarm", "fragswarm", "mbapp", "p2pmux", "multiswarm", "p2pkeswarm"
 HUBS = ["tell", "ask"]
 BS = [0, 1, 4]
 PHASES = ["idle", "pre", "cb", "post", "cancel"]
+MODEL_W = 2        # W in spec/HubsGen_*.cfg: the stack's worker count in model units
+# every class of phase script the generator must reach: (b, phase, k); k = deliveries in flight when Close is called
+CLASSES = ([(b, ph, 1 if ph == "pre" else 0) for b in BS for ph in PHASES if not (b == 0 and ph == "cancel")]
+           + [(b, "backlog", k) for b in BS for k in (MODEL_W, 2 * MODEL_W)]
+           + [(0, "cbbacklog", k) for k in (1, MODEL_W, 2 * MODEL_W)])
+BACKLOG_PROCS = {"quick": [2], "thorough": [2, 0]}   # GOMAXPROCS of the child running the backlog scripts (0: default)
 
 TIERS = {
-    "quick": dict(sims=200, per_class=1,
+    "quick": dict(sims=400, per_class=1,
                   stress={"C12": 400, "C13": 1500},
                   mc={"C12": ["Hubs_tell.cfg", "Hubs_ask.cfg", "Hubs_queue.cfg"],
                       "C13": ["Hubs_tell.cfg", "Hubs_ask.cfg", "Hubs_queue.cfg"]},
@@ -101,7 +108,7 @@ def model_check(pid, tier, stats):
             raise core.Inconclusive("self-test: %s should violate %s in the model but TLC reported %s" % (cfg, expect, res.errors[:2]))
         stats["mc_bug_selftest"][cfg] = [x for x in expect if any(x in str(h) for h in hit + res.errors)]
 
-    par = 3 if tier == "thorough" else 1
+    par = 3 if tier == "thorough" else 2
     ex = ThreadPoolExecutor(max_workers=par)
     futs = [ex.submit(one, cfg) for cfg in T["mc"][pid]]
     futs += [ex.submit(bug, cfg, expect) for cfg, expect in T["bugs"]]
@@ -123,10 +130,15 @@ def generate_scripts(tier, stats):
     T = TIERS[tier]
 
     def gen(hub):
-        res = core.tlc("HubsGen", "HubsGen_%s.cfg" % hub, workers=1, simulate=T["sims"], depth=300,
-                       tlc_seed=core.seed(), timeout=900, label="gen-" + hub, short=(T["sims"] <= 400))
-        core.tlc_ok_or_inconclusive(res, "HubsGen " + hub)
-        return hub, res.printed("BEH")
+        behs = []
+        for attempt in range(3):
+            res = core.tlc("HubsGen", "HubsGen_%s.cfg" % hub, workers=1, simulate=T["sims"], depth=400,
+                           tlc_seed=core.seed() + 7919 * attempt, timeout=900, label="gen-" + hub, short=(T["sims"] <= 400))
+            core.tlc_ok_or_inconclusive(res, "HubsGen " + hub)
+            behs += res.printed("BEH")
+            if not set(CLASSES) - {(b[1]["b"], b[1]["ph"], b[1]["k"]) for b in behs}:
+                break           # every class reached (a random walk may miss one: walk again with another seed)
+        return hub, behs
 
     with ThreadPoolExecutor(max_workers=2) as ex:
         out = list(ex.map(gen, HUBS))
@@ -138,21 +150,26 @@ def generate_scripts(tier, stats):
             behaviours.append((hub, goal, hist))
             if goal["b"] == 0 and goal["ph"] == "cancel":
                 continue          # nothing is cancelled: the same as idle/0
-            k = (goal["b"], goal["ph"])
+            k = (goal["b"], goal["ph"], goal["k"])
             d = classes.setdefault(k, {})
             c = canon(hist)
-            if c not in d and len(d) < T["per_class"]:
+            if c not in d and len(d) < (min(T["per_class"], 2) if goal["ph"] in ("backlog", "cbbacklog") else T["per_class"]):
                 d[c] = hist
-        missing = [(b, ph) for b in BS for ph in PHASES if not (b == 0 and ph == "cancel") and (b, ph) not in classes]
+        missing = [c for c in CLASSES if c not in classes]
         if missing:
             raise core.Inconclusive("HubsGen %s: the simulation reached no behaviour for the classes %s" % (hub, missing))
-        for (b, ph), d in sorted(classes.items()):
+        for (b, ph, k), d in sorted(classes.items()):
             for hist in d.values():
                 steps = [dict(a=s["a"], op=s["op"], pc=s["pc"]) for s in hist]
-                scripts.append(dict(id=len(scripts), hub=hub, b=b, ph=ph, reply=False, steps=steps))
+                if ph in ("backlog", "cbbacklog"):
+                    # W = the stack's worker count = GOMAXPROCS of the child process: small and cheap (2), and the default
+                    for procs in BACKLOG_PROCS[tier]:
+                        scripts.append(dict(id=len(scripts), hub=hub, b=b, ph=ph, k=k, w=MODEL_W, procs=procs, reply=False, steps=steps))
+                    continue
+                scripts.append(dict(id=len(scripts), hub=hub, b=b, ph=ph, k=k, w=MODEL_W, procs=0, reply=False, steps=steps))
                 if hub == "tell" and ph == "cb":
                     # concretisation choice of the stack level: the handler answers its sender
-                    scripts.append(dict(id=len(scripts), hub=hub, b=b, ph=ph, reply=True, steps=steps))
+                    scripts.append(dict(id=len(scripts), hub=hub, b=b, ph=ph, k=k, w=MODEL_W, procs=0, reply=True, steps=steps))
         stats["gen"][hub] = dict(behaviours=len(behs), classes=len(classes), distinct=len({canon(b[2]) for b in behs}))
     return scripts, behaviours
 
